@@ -75,6 +75,13 @@ private:
         bool isAssembled() const;
         std::shared_ptr<Packet> getPacket();
 
+#ifdef ASAM_CMP_LIB_VERIF
+        size_t verifSize() const
+        {
+            return payload.size();
+        }
+#endif
+
     private:
         MessageHeader* getHeader();
         bool isValidSegmentType(SegmentType type) const;
@@ -87,6 +94,25 @@ private:
     };
 
     using SegmentedPackets = std::unordered_map<Endpoint, SegmentedPacket, EndpointHash>;
+
+#ifdef ASAM_CMP_LIB_VERIF
+public:
+    // Read-only view of the pending reassembly table (verification builds only).
+    struct VerifPending
+    {
+        uint16_t deviceId;
+        uint8_t streamId;
+        size_t bytes;
+    };
+
+    std::vector<VerifPending> verifPending() const
+    {
+        std::vector<VerifPending> result;
+        for (const auto& entry : segmentedPackets)
+            result.push_back({entry.first.deviceId, entry.first.streamId, entry.second.verifSize()});
+        return result;
+    }
+#endif
 
 private:
     SegmentedPackets segmentedPackets;
